@@ -31,7 +31,7 @@ type Profile struct {
 var baseWeights = map[string]float64{
 	"new": 8, "newwith": 4, "bnew": 4, "bbatch": 2, "bbatchq": 1, "badd": 2,
 	"rm": 6, "xchg": 10, "assign": 3, "set": 6, "get": 2, "view": 3, "alive": 2,
-	"relset": 5, "relxchg": 3, "relget": 1, "relcycle": 0.6, "layoutcross": 0.05, "recycledtarget": 0.5,
+	"relset": 5, "relxchg": 3, "relget": 1, "relcycle": 0.6, "layoutcross": 0.05, "recycledtarget": 0.5, "resetrel": 0.05, "manymasks": 0.01,
 	"bxchg": 3, "bsetrel": 2, "brm": 1, "bbig": 0.05,
 	"qscan": 3, "qopen": 1, "creg": 1, "cunreg": 0.4, "cscan": 2,
 	"reset": 0.3, "dumpload": 0.2, "reg": 0.5, "res": 1, "listen": 0.4, "stats": 1, "locked": 0.5,
@@ -81,6 +81,7 @@ func profile(name string) Profile {
 		mul(8, "listen")
 	case "reset": // C15
 		mul(12, "reset")
+		mul(40, "resetrel")
 		mul(3, "creg", "cscan", "relset")
 	case "registry": // C16
 		p.minComps, p.maxComps = 0, ecs.MaskTotalBits
@@ -96,6 +97,11 @@ func profile(name string) Profile {
 	case "res": // C20
 		mul(12, "res")
 		mul(3, "reset")
+	case "manynodes": // C13: worlds with well over a hundred archetype-graph nodes
+		p.minComps, p.maxComps = 9, 10
+		mul(600, "manymasks")
+		mul(3, "bxchg", "brm", "creg", "cscan", "bsetrel")
+		p.length = [2]int{500, 900}
 	case "mixed":
 	default:
 		panic("harness: unknown profile " + name)
@@ -602,11 +608,15 @@ func (g *G) illegalOp() bool {
 				}
 			}
 		}
+		vals := "-"
+		if g.rng.Intn(2) == 0 {
+			vals = strconv.Itoa(1 + g.rng.Intn(50)) // NewBuilderWith instead of NewBuilder
+		}
 		switch g.rng.Intn(6) {
 		case 0:
-			g.emit("BNEW", strconv.Itoa(rel), "-", strconv.Itoa(rel), d)
+			g.emit("BNEW", strconv.Itoa(rel), vals, strconv.Itoa(rel), d)
 		case 1:
-			g.emit("BBATCH", strconv.Itoa(rel), "-", strconv.Itoa(rel), "2", d)
+			g.emit("BBATCH", strconv.Itoa(rel), vals, strconv.Itoa(rel), "2", d)
 		case 2:
 			for _, s := range al {
 				if g.relOf(g.maskOf(s)) == rel {
@@ -628,7 +638,7 @@ func (g *G) illegalOp() bool {
 			for _, s := range al {
 				m := g.maskOf(s)
 				if g.relOf(m) < 0 {
-					g.emit("BADD", strconv.Itoa(rel), "-", strconv.Itoa(rel), sl(s), d)
+					g.emit("BADD", strconv.Itoa(rel), vals, strconv.Itoa(rel), sl(s), d)
 					return true
 				}
 			}
@@ -904,6 +914,102 @@ func (g *G) legalOp(kind string) bool {
 			g.emit("RM", child)
 			g.emit("RM", tgt)
 		}
+	case "manymasks":
+		// entities for many different component combinations: the archetype graph grows to
+		// hundreds of nodes
+		if n < 8 {
+			return false
+		}
+		for k := 0; k < 40; k++ {
+			var ids []int
+			rel := false
+			for i := 0; i < n && i < 10; i++ {
+				if g.rng.Intn(2) == 0 {
+					if g.x.comps[i].isRel {
+						if rel {
+							continue
+						}
+						rel = true
+					}
+					ids = append(ids, i)
+				}
+			}
+			g.emit("NEW", strIDs(ids))
+		}
+	case "resetrel":
+		// registered relation filters across Reset: parents and children through the pooled tables of
+		// one relation node, a retirement, Reset, then the same handles again with the tables paired
+		// differently; every registered filter is compared with its original after each stage
+		rels := g.relIDs()
+		if len(rels) == 0 {
+			return false
+		}
+		rel := g.pick(rels)
+		scanAll := func() {
+			for k, c := range g.cached {
+				if c.alive {
+					a := g.emit("QSCAN", "C", strconv.Itoa(k))
+					b := g.emit("QSCAN", c.toks...)
+					if a != b {
+						fmt.Fprintf(g.out, "CHK %d FAIL cached filter %d (%s) selects %q, original selects %q\n", g.idx-1, k, strings.Join(c.toks, " "), a, b)
+					}
+				}
+			}
+		}
+		stage := func(registerFirst bool) bool {
+			var parents []string
+			for i := 0; i < 3; i++ {
+				r := g.emit("NEW", "-")
+				if !strings.HasPrefix(r, "e ") {
+					return false
+				}
+				parents = append(parents, strings.Fields(r)[1])
+			}
+			if registerFirst {
+				live := 0
+				for _, c := range g.cached {
+					if c.alive {
+						live++
+					}
+				}
+				if live < 8 {
+					f := []string{"R", "A", strconv.Itoa(rel), parents[g.rng.Intn(2)]}
+					if strings.HasPrefix(g.emit("CREG", f...), "n ") {
+						g.cached = append(g.cached, cachedInfo{toks: f, alive: true})
+					}
+				}
+			}
+			order := g.rng.Perm(3)
+			for _, k := range order {
+				g.emit("BBATCH", strconv.Itoa(rel), "-", strconv.Itoa(rel), strconv.Itoa(1+g.rng.Intn(3)), parents[k])
+			}
+			scanAll()
+			// one parent goes away with its children: its table is retired
+			victim := parents[order[g.rng.Intn(3)]]
+			g.emit("BRM", "R", "A", strconv.Itoa(rel), victim)
+			g.emit("RM", victim)
+			scanAll()
+			for _, k := range g.rng.Perm(3) {
+				if parents[k] != victim {
+					g.emit("BBATCH", strconv.Itoa(rel), "-", strconv.Itoa(rel), "1", parents[k])
+				}
+			}
+			scanAll()
+			return true
+		}
+		if !stage(true) {
+			return true
+		}
+		for i := 0; i < 2; i++ {
+			if g.emit("RESET") != "ok" {
+				return true
+			}
+			// after a Reset the same handles are issued again: a filter registered for one of them
+			// in the previous round now selects the children of the new holder of that handle
+			if !stage(g.rng.Intn(2) == 0) {
+				return true
+			}
+		}
 	case "recycledtarget":
 		// an entity keeps pointing at a dead target; the next entity created recycles the dead
 		// target's id (the free list is LIFO); the child is then re-targeted to that NEW entity -
@@ -1012,6 +1118,7 @@ func (g *G) legalOp(kind string) bool {
 		// choose the change first, then a filter that makes it legal for all matches
 		var add, rem []int
 		var f []string
+		keepRel := -1
 		q := strconv.Itoa(b01(g.rng.Float64() < 0.3))
 		if len(al) > 0 && g.rng.Float64() < 0.8 {
 			m := g.maskOf(g.pick(al))
@@ -1031,6 +1138,10 @@ func (g *G) legalOp(kind string) bool {
 			}
 			inc := append([]int{}, rem...)
 			inc = append(inc, g.pickSub(m, 1)...)
+			if r := g.relOf(m); r >= 0 && !contains(rem, r) && g.relOf(add) < 0 && g.rng.Intn(2) == 0 {
+				keepRel = r
+				inc = append(inc, r)
+			}
 			inc = dedup(inc)
 			sort.Ints(inc)
 			sort.Ints(exc)
@@ -1048,6 +1159,13 @@ func (g *G) legalOp(kind string) bool {
 		rid, tg := "-", "-"
 		if g.relOf(add) >= 0 && g.rng.Float64() < 0.6 {
 			rid, tg = strconv.Itoa(g.relOf(add)), g.pickTarget(0)
+		} else if keepRel >= 0 && g.rng.Float64() < 0.5 {
+			// the matching tables keep their relation component: name it with a new target,
+			// the zero entity included
+			rid, tg = strconv.Itoa(keepRel), g.pickTarget(0)
+			if g.rng.Intn(3) == 0 {
+				tg = "s0"
+			}
 		}
 		args := append([]string{q, strIDs(add), strIDs(rem), rid, tg}, f...)
 		res := g.emit("BXCHG", args...)
@@ -1323,6 +1441,12 @@ func (g *G) loadIntoNewWorld() {
 	if g.rng.Float64() < 0.35 {
 		// a bystander: a second world loaded from the SAME dump, never touched again; whatever
 		// is done to the first one must not show in it (C19)
+		withListeners := g.rng.Intn(2) == 0
+		if withListeners {
+			// both worlds get a Dispatch built from the same (empty) template value, each with its
+			// own sub-listeners added afterwards: no event of one world may reach the other's
+			g.emit("LISTEND", "0", "63", "-", strconv.Itoa(g.rng.Intn(64)), "-")
+		}
 		mainWk, mainX, mainCached, mainRes := g.wk, g.x, g.cached, g.nRes
 		g.nWorlds++
 		g.wk = g.nWorlds
@@ -1336,6 +1460,9 @@ func (g *G) loadIntoNewWorld() {
 			g.emit("REG", strconv.Itoa(c.key), strconv.Itoa(b01(c.isRel)), strconv.Itoa(b01(c.zs)))
 		}
 		g.emit("LOAD", ds)
+		if withListeners {
+			g.emit("LISTEND", "0", "63", "-")
+		}
 		g.bystanders = append(g.bystanders, g.wk)
 		g.wk, g.x, g.cached, g.nRes = mainWk, mainX, mainCached, mainRes
 	}
